@@ -547,6 +547,7 @@ func c14FixedShapes() []*c14Val {
 	array := func(vs ...*c14Val) *c14Val {
 		return &c14Val{k: 'A', kids: vs, t: &c14Type{k: 'A', elem: vs[0].t, n: len(vs)}}
 	}
+	nilp := func() *c14Val { return &c14Val{k: 'Z', t: &c14Type{k: 'P', elem: &c14Type{k: 'O'}}} }
 	str := func(s string) *c14Val { return &c14Val{k: 'S', s: s, t: &c14Type{k: 'S'}} }
 	num := func(n int) *c14Val { return &c14Val{k: 'N', n: n, t: &c14Type{k: 'N'}} }
 	mp := func(k, v *c14Val) *c14Val {
@@ -590,6 +591,10 @@ func c14FixedShapes() []*c14Val {
 		ptr(mp(str("k"), o(0))),                   // *map
 		mp3(str("a"), o(0), str("b"), o(1), str("c"), o(2)), // several headers: map[string]opaque with three entries
 		ptr(array(o(0))), // *[1]String
+		// typed nil pointers beside live ones (thorough seeds 15839 / 23758): fmt calls a pointer-receiver String() on a nil *T too
+		mp3(str("1"), nilp(), str("a2"), nilp(), str("plain text0"), ptr(o(0))), // map[string]*String with nil values
+		ptr(st(true, array(o(2)), nilp())),                                      // *struct{[1]String; *String(nil)}
+		slice(nilp(), ptr(o(0)), nilp()),                                        // []*String with nil elements
 	}
 }
 
